@@ -178,7 +178,7 @@ def real_tables(w):
             if got != want:
                 w.violation('C10:decoded-line-differs', inp, {'code_name': k.co_name, 'firstlineno': k.co_firstlineno})
             c2, e = try_(d.to_code)
-            if e is None and O.line_table(c2) != table and not props.interior_lnotab_entry(k):
+            if e is None and O.line_table(c2) != table and not (props.interior_lnotab_entry(k) and props.only_addresses_moved(table, O.line_table(c2))):
                 w.violation('C10:table-not-reproduced', inp, {'code_name': k.co_name, 'firstlineno': k.co_firstlineno,
                                                               'table': binascii.hexlify(table).decode(), 'got': binascii.hexlify(O.line_table(c2)).decode()})
             if len(table) < 4000:
